@@ -399,6 +399,22 @@ pub fn sites(tier: Tier) -> Vec<Site> {
     // 1c. messages larger than the adaptor's 1020-byte buffer
     {
         let rs = read_sizes.clone();
+        // (one message of 8 MiB + 4 bytes with the three largest read sizes only)
+        {
+            let big_rs: Vec<usize> = { let mut v: Vec<usize> = rs.to_vec(); v.sort(); v.into_iter().rev().take(3).collect() };
+            sites.push(Site::new("adaptor-huge", big_rs.len() as u64,
+                "one binary message of 8 MiB + 4 bytes x the three largest read sizes",
+                move |i, acc| {
+                    let size = big_rs[i as usize];
+                    let l = 8 * 1024 * 1024 + 4;
+                    let m: Vec<u8> = (0..l).map(|j| ((j * 7) % 251) as u8).collect();
+                    acc.eval();
+                    let desc = format!("one message of {l} bytes read size {size}");
+                    let replay = json!({"site": "adaptor-huge", "index": i, "case": desc});
+                    let stream = m.clone();
+                    judge_adaptor(acc, i, guard(|| adaptor_reads(vec![Msg::Bin(m)], l, size)), &stream, &desc, replay);
+                }));
+        }
         sites.push(Site::new("adaptor-large", rs.len() as u64 * 6,
             "one binary message of 2000 bytes; 1020 + 1 bytes; 3 x 1500 bytes; one of 70 000 bytes; 65 536 + 4 bytes; one of 200 000 bytes x every read size",
             move |i, acc| {
